@@ -14,6 +14,7 @@ structure Shape (s : St α) (c0 : Centroid α) (cs : List (Centroid α)) (mn mx 
   hmin : s.min = some mn
   hmax : s.max = some mx
   pos : ∀ c ∈ s.centroids, 0 < c.count
+  range : ∀ c ∈ s.centroids, mn ≤ c.mean ∧ c.mean ≤ mx
   mono : Mono (0, mn) (knots mx 0 (c0 :: cs))
   sabs : StrictAbs (0, mn) (knots mx 0 (c0 :: cs))
   spos : 0 < sumCount (c0 :: cs)
@@ -28,7 +29,7 @@ theorem WF.shape {s : St α} (h : WF s) (hne : s.centroids ≠ []) :
     have hpos : ∀ c ∈ c0 :: cs, 0 < c.count := by rw [← hc]; exact h.pos
     have hr' : ∀ c ∈ c0 :: cs, mn ≤ c.mean ∧ c.mean ≤ mx := by rw [← hc]; exact hr
     have hmm : mn ≤ mx := le_trans (hr' c0 (by simp)).1 (hr' c0 (by simp)).2
-    refine ⟨c0, cs, mn, mx, hc, hmin, hmax, h.pos, ?_, ?_, sumCount_pos hpos (by simp), hmm⟩
+    refine ⟨c0, cs, mn, mx, hc, hmin, hmax, h.pos, hr, ?_, ?_, sumCount_pos hpos (by simp), hmm⟩
     · exact knots_mono mx (c0 :: cs) 0 (0, mn) le_rfl hpos (by rw [← hc]; exact h.sorted) hr' hmm
     · exact knots_strictAbs mx (c0 :: cs) 0 (0, mn) (Or.inr ⟨le_rfl, by simp⟩) hpos
 
@@ -41,7 +42,7 @@ def qv (c0 : Centroid α) (cs : List (Centroid α)) (mn mx q : α) : α :=
 
 theorem Shape.quantile_eq (h : Shape s c0 cs mn mx) {q : α} (hq0 : 0 ≤ q) (hq1 : q ≤ 1) :
     quantileInner s q = .val (qv c0 cs mn mx q) :=
-  quantileInner_eq h.hc h.hmin h.hmax h.pos hq0 hq1
+  quantileInner_eq h.hc h.hmin h.hmax h.pos h.range hq0 hq1
 
 theorem Shape.qv_ge (h : Shape s c0 cs mn mx) {q : α} (hq0 : 0 ≤ q) : mn ≤ qv c0 cs mn mx q :=
   plLE_ge h.mono (mul_nonneg h.spos.le hq0)
@@ -69,7 +70,7 @@ def cv (c0 : Centroid α) (cs : List (Centroid α)) (mn mx x : α) : α :=
 
 theorem Shape.cdf_eq (h : Shape s c0 cs mn mx) {x : α} (hx : mn ≤ x) :
     cdfInner s x = some (cv c0 cs mn mx x) :=
-  cdfInner_eq h.hc h.hmin h.hmax h.pos hx
+  cdfInner_eq h.hc h.hmin h.hmax h.pos h.range hx
 
 theorem Shape.cdf_lt (h : Shape s c0 cs mn mx) {x : α} (hx : x < mn) : cdfInner s x = some 0 :=
   cdfInner_lt_min h.hc h.hmin h.hmax hx
